@@ -404,8 +404,8 @@ Lemma getattr_ok o a v : getattr_py R false o a = Val v -> starts_dunder a = fal
 Proof.
   unfold getattr_py, getattr_interp. destruct (starts_dunder a); [discriminate|].
   destruct (getattr_found R o a) as [r|]; [intros H; split; [reflexivity|exact H]|].
-  destruct o; try discriminate. destruct sentinel_attribute_is_sentinel; [|discriminate].
-  intros H; split; [reflexivity|exact H].
+  destruct o; try discriminate.
+  all: destruct sentinel_attribute_is_sentinel; [intros H; split; [reflexivity|exact H]|discriminate].
 Qed.
 
 Lemma apply_allowed fv vs kvs v : apply R fv vs kvs = Val v -> allowed_callable fv = true.
